@@ -461,3 +461,10 @@ package priority
 //@ func (*Discipline).Release
 //@   requires [*] dsc != nil
 //@   modifies gClock
+
+// ---------------------------------------------------------------- C20: ownership discipline
+//@ confine Discipline
+//@ confined inputs priorities actual strategic tactic uncrowded useful feedbackLimit interrupter
+//@ shared opts feedback output err
+//@ entries (*Discipline).main
+//@ ctors New prepare
